@@ -20,8 +20,8 @@ import Tickit.Gen.Bindings
   code violates it — refuted for `Cfg.original` by a concrete history (`…_counterexample`).
 
   Hypotheses common to the theorems:
-    `NoDestroy beh`  no behaviour drops the last reference to the owner from inside a handler
-                     (pen and terminal hold no reference during emission: known finding `destroy_in_handler`);
+    `Safe own beh`   the owner's emitters hold a reference while they run the handlers (`own.holdsRef`, the code since
+                     fix 4d40c98), or no behaviour drops the last reference to the owner from inside a handler (`NoDestroy`);
     `ValidOps ops`   `unbind` is never handed `BINDING_ID_TOMBSTONE` (-1), which is not an identifier;
     handlers take no action when called with `TICKIT_EV_DESTROY` (built into the model's `call`).
 -/
@@ -73,7 +73,7 @@ instance (ops : List Op) : Decidable (ValidOps ops) := by unfold ValidOps; infer
 
 /-- No history dereferences a freed binding, writes through a stale `bindp` or calls a NULL handler. -/
 def NoUbStmt (cfg : Cfg) : Prop :=
-  ∀ own beh, NoDestroy beh → ∀ fuel ops, ValidOps ops → ∀ w, execOps cfg own beh fuel ops St.init ≠ .ub w
+  ∀ own beh, Safe own beh → ∀ fuel ops, ValidOps ops → ∀ w, execOps cfg own beh fuel ops St.init ≠ .ub w
 
 theorem no_ub : NoUbStmt Cfg.repaired := by
   intro own beh hb fuel ops hops w hc
@@ -82,10 +82,11 @@ theorem no_ub : NoUbStmt Cfg.repaired := by
   exact this
 
 /-- The same for every single task started in a state satisfying the invariant (any nesting depth). -/
-theorem no_ub_task (own : Owner) (beh : Behaviour) (hb : NoDestroy beh) (fuel : Nat) (task : Task) (st : St)
-    (h : Tickit.Bindings.Inv st) (hok : TaskOk task st) (w : String) : exec Cfg.repaired own beh fuel task st ≠ .ub w := by
+theorem no_ub_task (own : Owner) (beh : Behaviour) (hb : Safe own beh) (fuel : Nat) (task : Task) (st : St)
+    (h : Tickit.Bindings.Inv st) (hro : RefOk own st) (hok : TaskOk own beh task st) (w : String) :
+    exec Cfg.repaired own beh fuel task st ≠ .ub w := by
   intro hc
-  have := exec_good own beh hb fuel task st h hok
+  have := exec_good own beh hb fuel task st h hro hok
   rw [hc] at this
   exact this
 
@@ -93,14 +94,14 @@ theorem no_ub_task (own : Owner) (beh : Behaviour) (hb : NoDestroy beh) (fuel : 
 
 /-- After any history the live bindings have pairwise different identifiers, all positive. -/
 def LiveIdsUniqueStmt (cfg : Cfg) : Prop :=
-  ∀ own beh, NoDestroy beh → ∀ fuel ops st, ValidOps ops → Runs cfg own beh fuel ops st → Op.destroy ∉ ops →
+  ∀ own beh, Safe own beh → ∀ fuel ops st, ValidOps ops → Runs cfg own beh fuel ops st → Op.destroy ∉ ops → st.dead = false →
     ∀ b1 ∈ st.list, ∀ b2 ∈ st.list, b1.id ≠ TOMBSTONE → b1.id = b2.id → b1 = b2
 
 theorem live_ids_unique : LiveIdsUniqueStmt Cfg.repaired := by
-  intro own beh hb fuel ops st hops hr hnd b1 h1 b2 h2 hl heq
+  intro own beh hb fuel ops st hops hr hnd hal b1 h1 b2 h2 hl heq
   have := execOps_good own beh hb fuel ops St.init hops Top.init
   rw [hr] at this
-  have hinv := (this.2 hnd).1.1
+  have hinv := (this.2 hnd hal).1.1
   have hk := hinv.idsUnique b1 h1 b2 h2 hl heq
   have f1 := findKey_eq_of_mem hinv.keysNodup h1
   have f2 := findKey_eq_of_mem hinv.keysNodup h2
@@ -111,7 +112,7 @@ theorem live_ids_unique : LiveIdsUniqueStmt Cfg.repaired := by
 /-- …and at every bind, top-level or inside a handler at any depth: the identifier returned is positive and
     differs from the identifier of every binding live at that moment. -/
 def BindFreshStmt (cfg : Cfg) : Prop :=
-  ∀ own beh, NoDestroy beh → ∀ fuel ops st, ValidOps ops → Runs cfg own beh fuel ops st →
+  ∀ own beh, Safe own beh → ∀ fuel ops st, ValidOps ops → Runs cfg own beh fuel ops st →
     ∀ post pre k id ev first fl, st.log = post ++ Ev.bound k id ev first fl :: pre →
       1 ≤ id ∧ ∀ k' id' ev' first' fl', Ev.bound k' id' ev' first' fl' ∈ pre → liveAt pre k' → id' ≠ id
 
@@ -129,7 +130,7 @@ theorem bind_returns_fresh_id : BindFreshStmt Cfg.repaired := by
 /-- Over a whole history the handler of a `TICKIT_BIND_ONESHOT` binding is entered with `TICKIT_EV_FIRE`
     at most once, whichever walker delivers. -/
 def OneshotStmt (cfg : Cfg) : Prop :=
-  ∀ own beh, NoDestroy beh → ∀ fuel ops st, ValidOps ops → Runs cfg own beh fuel ops st →
+  ∀ own beh, Safe own beh → ∀ fuel ops st, ValidOps ops → Runs cfg own beh fuel ops st →
     ∀ k fl, boundIn st.log k fl → fl.oneshot = true → st.log.countP (isEnterFire k) ≤ 1
 
 theorem oneshot_at_most_once : OneshotStmt Cfg.repaired := by
@@ -143,7 +144,7 @@ theorem oneshot_at_most_once : OneshotStmt Cfg.repaired := by
 /-- Once `unbind_event_id` has found a binding, its handler is never entered with `TICKIT_EV_FIRE` again —
     not even from inside its own unbind notification. -/
 def NoFireAfterUnbindStmt (cfg : Cfg) : Prop :=
-  ∀ own beh, NoDestroy beh → ∀ fuel ops st, ValidOps ops → Runs cfg own beh fuel ops st →
+  ∀ own beh, Safe own beh → ∀ fuel ops st, ValidOps ops → Runs cfg own beh fuel ops st →
     ∀ post pre k, st.log = post ++ Ev.unbindReq k :: pre → post.countP (isEnterFire k) = 0
 
 theorem no_fire_after_unbind : NoFireAfterUnbindStmt Cfg.repaired := by
@@ -159,7 +160,7 @@ theorem no_fire_after_unbind : NoFireAfterUnbindStmt Cfg.repaired := by
 /-- A binding receives the pure unbind notification (`TICKIT_EV_UNBIND` alone) at most once, never more often
     than it was unbound (which is at most once), and only if it was bound with `TICKIT_BIND_UNBIND`. -/
 def UnbindNotifyAtMostStmt (cfg : Cfg) : Prop :=
-  ∀ own beh, NoDestroy beh → ∀ fuel ops st, ValidOps ops → Runs cfg own beh fuel ops st → ∀ k,
+  ∀ own beh, Safe own beh → ∀ fuel ops st, ValidOps ops → Runs cfg own beh fuel ops st → ∀ k,
     st.log.countP (isNotif k) ≤ st.log.countP (isReq k) ∧ st.log.countP (isReq k) ≤ 1 ∧
     (∀ h n occ, Ev.enter k h n EV_UNBIND occ ∈ st.log → ∃ fl, boundIn st.log k fl ∧ fl.unbind = true)
 
@@ -173,14 +174,14 @@ theorem unbind_notify_at_most_once : UnbindNotifyAtMostStmt Cfg.repaired := by
     state satisfying the invariant) that finds a live binding bound with `TICKIT_BIND_UNBIND` has entered its
     handler with `TICKIT_EV_UNBIND` right after the request; if the binding did not ask, nothing is called. -/
 def UnbindNotifiesStmt (cfg : Cfg) : Prop :=
-  ∀ own beh, NoDestroy beh → ∀ fuel id st st' r b, Tickit.Bindings.Inv st → id ≠ TOMBSTONE → findId st.list id = some b →
+  ∀ own beh, Safe own beh → ∀ fuel id st st' r b, Tickit.Bindings.Inv st → RefOk own st → id ≠ TOMBSTONE → findId st.list id = some b →
     exec cfg own beh fuel (.unbindId id) st = .ok (st', r) →
     (b.flags.unbind = true → ∃ h n seg, st'.log = seg ++ Ev.enter b.key h n EV_UNBIND 0 :: Ev.unbindReq b.key :: st.log) ∧
     (b.flags.unbind = false → st'.log = Ev.unbindReq b.key :: st.log)
 
 theorem unbind_notifies : UnbindNotifiesStmt Cfg.repaired := by
-  intro own beh hb fuel id st st' r b hinv hid hf hex
-  exact exec_unbindId_log own beh hb hinv hid hf hex
+  intro own beh hb fuel id st st' r b hinv hro hid hf hex
+  exact exec_unbindId_log own beh hb hinv hro hid hf hex
 
 /-! ### destroy_notifies -/
 
@@ -189,17 +190,17 @@ theorem unbind_notifies : UnbindNotifiesStmt Cfg.repaired := by
     `TICKIT_BIND_DESTROY` — each exactly once, in reverse list order (newest first; bindings bound `FIRST`
     last), and calls nothing else.  Every remaining binding is live: there is no tombstone between operations. -/
 def DestroyNotifiesStmt (cfg : Cfg) : Prop :=
-  ∀ own beh, NoDestroy beh → ∀ fuel ops st st', ValidOps ops → Op.destroy ∉ ops → Runs cfg own beh fuel ops st →
-    execOp cfg own beh fuel .destroy st = .ok st' →
+  ∀ own beh, Safe own beh → ∀ fuel ops st st', ValidOps ops → Op.destroy ∉ ops → Runs cfg own beh fuel ops st →
+    st.dead = false → execOp cfg own beh fuel .destroy st = .ok st' →
     (∀ b ∈ st.list, b.id ≠ TOMBSTONE) ∧ st'.list = [] ∧
     ∃ seg, st'.log = seg ++ st.log ∧
       enters seg = ((st.list.reverse.filter asked).map fun b => (b.key, EV_UNBIND + EV_DESTROY))
 
 theorem destroy_notifies : DestroyNotifiesStmt Cfg.repaired := by
-  intro own beh hb fuel ops st st' hops hnd hr hd
+  intro own beh hb fuel ops st st' hops hnd hr hal hd
   have := execOps_good own beh hb fuel ops St.init hops Top.init
   rw [hr] at this
-  have htop := (this.2 hnd).1
+  have htop := (this.2 hnd hal).1
   have hfn : ∀ b ∈ st.list.reverse, b.fn ≠ none := fun b hb' =>
     htop.1.liveFn b (List.mem_reverse.1 hb') (htop.no_tombstones b (List.mem_reverse.1 hb'))
   simp only [execOp] at hd
@@ -217,12 +218,12 @@ theorem destroy_notifies : DestroyNotifiesStmt Cfg.repaired := by
 
 /-- Between operations the list holds no tombstone and the sweep flag is clear: the suspected defect
     "destroy with a tombstone pending" needs the owner to be destroyed from inside a handler. -/
-theorem no_tombstone_between_operations (own : Owner) (beh : Behaviour) (hb : NoDestroy beh) (fuel : Nat) (ops : List Op) (st : St)
-    (hops : ValidOps ops) (hnd : Op.destroy ∉ ops) (hr : Runs Cfg.repaired own beh fuel ops st) :
+theorem no_tombstone_between_operations (own : Owner) (beh : Behaviour) (hb : Safe own beh) (fuel : Nat) (ops : List Op) (st : St)
+    (hops : ValidOps ops) (hnd : Op.destroy ∉ ops) (hr : Runs Cfg.repaired own beh fuel ops st) (hal : st.dead = false) :
     st.isIter = false ∧ ∀ b ∈ st.list, b.id ≠ TOMBSTONE := by
   have := execOps_good own beh hb fuel ops St.init hops Top.init
   rw [hr] at this
-  exact ⟨(this.2 hnd).1.2, (this.2 hnd).1.no_tombstones⟩
+  exact ⟨(this.2 hnd hal).1.2, (this.2 hnd hal).1.no_tombstones⟩
 
 
 /-! ### fire_order -/
@@ -243,7 +244,8 @@ theorem no_tombstone_between_operations (own : Owner) (beh : Behaviour) (hb : No
     So the bindings live for `ev` at the start and still live when reached are delivered to exactly once, in chain
     order (`fire_exactly_once`); and the chain is in binding order, `FIRST` binds ahead (`chain_in_binding_order`). -/
 def FireOrderStmt (cfg : Cfg) : Prop :=
-  ∀ own beh, NoDestroy beh → ∀ fuel wf ev st st' r, Tickit.Bindings.Inv st → 1 ≤ st.nextOcc →
+  ∀ own beh, Safe own beh → ∀ fuel wf ev st st' r, Tickit.Bindings.Inv st → RefOk own st →
+    (own.holdsRef = true → (if st.userRef then 2 else 1) ≤ st.refs) → 1 ≤ st.nextOcc →
     exec cfg own beh fuel (.runEvent wf ev) st = .ok (st', r) →
     ∃ seg A, st'.log = Ev.occEnd st.nextOcc :: (seg ++ Ev.occBegin st.nextOcc ev wf :: st.log) ∧
       (keys st.list ++ A).Nodup ∧
@@ -257,26 +259,28 @@ def FireOrderStmt (cfg : Cfg) : Prop :=
       (r ≠ 0 → wf = true ∧ ∃ c s1, seg = Ev.leave c st.nextOcc r :: s1)
 
 theorem fire_order : FireOrderStmt Cfg.repaired := by
-  intro own beh hb fuel wf ev st st' r h hocc hex
-  exact runEvent_spec own beh hb h hocc hex
+  intro own beh hb fuel wf ev st st' r h hro hrefs hocc hex
+  exact runEvent_spec own beh hb h hro hrefs hocc hex
 
 /-- Occurrence numbers start at 1 (0 marks notifications): the hypothesis `1 ≤ st.nextOcc` of `fire_order` holds after
     every history, and `Step.occMono` carries it into every nested call. -/
-theorem occurrence_numbers_positive (own : Owner) (beh : Behaviour) (hb : NoDestroy beh) (fuel : Nat) (ops : List Op) (st : St)
-    (hops : ValidOps ops) (hnd : Op.destroy ∉ ops) (hr : Runs Cfg.repaired own beh fuel ops st) : 1 ≤ st.nextOcc := by
+theorem occurrence_numbers_positive (own : Owner) (beh : Behaviour) (hb : Safe own beh) (fuel : Nat) (ops : List Op) (st : St)
+    (hops : ValidOps ops) (hnd : Op.destroy ∉ ops) (hr : Runs Cfg.repaired own beh fuel ops st) (hal : st.dead = false) :
+    1 ≤ st.nextOcc := by
   have := execOps_good own beh hb fuel ops St.init hops Top.init
   rw [hr] at this
-  exact (this.2 hnd).2
+  exact (this.2 hnd hal).2
 
 /-- Exactly once: a binding live for the event when the occurrence starts and still live for it when the occurrence
     ends (no handler having claimed the event) was delivered to exactly once in it. -/
-theorem fire_exactly_once (own : Owner) (beh : Behaviour) (hb : NoDestroy beh) (fuel : Nat) (wf : Bool) (ev : Int)
-    (st st' : St) (r : Int) (h : Tickit.Bindings.Inv st) (hocc : 1 ≤ st.nextOcc)
+theorem fire_exactly_once (own : Owner) (beh : Behaviour) (hb : Safe own beh) (fuel : Nat) (wf : Bool) (ev : Int)
+    (st st' : St) (r : Int) (h : Tickit.Bindings.Inv st) (hro : RefOk own st)
+    (hrefs : own.holdsRef = true → (if st.userRef then 2 else 1) ≤ st.refs) (hocc : 1 ≤ st.nextOcc)
     (hex : exec Cfg.repaired own beh fuel (.runEvent wf ev) st = .ok (st', r)) :
     ∃ seg, st'.log = Ev.occEnd st.nextOcc :: (seg ++ Ev.occBegin st.nextOcc ev wf :: st.log) ∧
       ∀ b, evLive ev st.log b → evLive ev (seg ++ Ev.occBegin st.nextOcc ev wf :: st.log) b → ¬ (wf = true ∧ r ≠ 0) →
         (firesOf st.nextOcc seg).count b = 1 := by
-  obtain ⟨seg, A, hlog, hnd, hsub, _, hcomp, _⟩ := runEvent_spec own beh hb h hocc hex
+  obtain ⟨seg, A, hlog, hnd, hsub, _, hcomp, _⟩ := runEvent_spec own beh hb h hro hrefs hocc hex
   refine ⟨seg, hlog, fun b hl0 hl1 hncl => ?_⟩
   have hbk : b ∈ keys st.list := by
     obtain ⟨x, hx, hxk, _⟩ := (h.liveIff b).2 hl0.1
@@ -289,31 +293,98 @@ theorem fire_exactly_once (own : Owner) (beh : Behaviour) (hb : NoDestroy beh) (
 
 /-- The chain is in binding order: it is a sub-sequence of the sequence obtained from the bind events by putting
     `TICKIT_BIND_FIRST` binds at the front and the others at the back (which has no repetition). -/
-theorem chain_in_binding_order (own : Owner) (beh : Behaviour) (hb : NoDestroy beh) (fuel : Nat) (ops : List Op) (st : St)
-    (hops : ValidOps ops) (hnd : Op.destroy ∉ ops) (hr : Runs Cfg.repaired own beh fuel ops st) :
+theorem chain_in_binding_order (own : Owner) (beh : Behaviour) (hb : Safe own beh) (fuel : Nat) (ops : List Op) (st : St)
+    (hops : ValidOps ops) (hnd : Op.destroy ∉ ops) (hr : Runs Cfg.repaired own beh fuel ops st) (hal : st.dead = false) :
     (keys st.list).Sublist (bindOrder st.log) ∧ (bindOrder st.log).Nodup := by
   have := execOps_good own beh hb fuel ops St.init hops Top.init
   rw [hr] at this
-  exact ⟨(this.2 hnd).1.1.order, (bindOrder_nodup this.1).1⟩
+  exact ⟨(this.2 hnd hal).1.1.order, (bindOrder_nodup this.1).1⟩
 
 /-- …and this holds in every state a task runs in (any nesting depth), being part of the invariant. -/
 theorem chain_in_binding_order_inv (st : St) (h : Tickit.Bindings.Inv st) :
     (keys st.list).Sublist (bindOrder st.log) ∧ (bindOrder st.log).Nodup :=
   ⟨h.order, (bindOrder_nodup h.trace).1⟩
 
+/-! ### destruction from inside a handler (owners whose emitters hold a reference: the code since fix 4d40c98)
+
+`Safe own beh` is `own.holdsRef = true ∨ NoDestroy beh`: every theorem above therefore holds for *all* behaviours —
+including those that drop the owner's last reference from inside a handler, at any depth — when the owner's emitters hold
+a reference, as `pen.c` and `term.c` now do (`Gen.Bindings.penEmitterRef/termEmitterRef`).  The handler interpreter
+drops the handlers' reference once (`St.userRef`) and takes no action on an owner that is gone. -/
+
+/-- `no_ub` without any hypothesis on the behaviours. -/
+theorem no_ub_holding_ref (own : Owner) (hh : own.holdsRef = true) (beh : Behaviour) (fuel : Nat) (ops : List Op)
+    (hops : ValidOps ops) (w : String) : execOps Cfg.repaired own beh fuel ops St.init ≠ .ub w :=
+  no_ub own beh (Or.inl hh) fuel ops hops w
+
+/-- The owner is never destroyed under a walker: an occurrence — and any task started while a walker runs — ends
+    with the owner alive, whatever the handlers do.  (Destruction waits for the end of the outermost emission.) -/
+theorem owner_outlives_the_walk (own : Owner) (beh : Behaviour) (hb : Safe own beh) (fuel : Nat) (task : Task) (st st' : St) (r : Int)
+    (h : Tickit.Bindings.Inv st) (hro : RefOk own st) (hok : TaskOk own beh task st)
+    (hwalk : st.isIter = true ∨ canDie task = false)
+    (hex : exec Cfg.repaired own beh fuel task st = .ok (st', r)) : st'.dead = false ∧ Tickit.Bindings.Inv st' := by
+  have := exec_good own beh hb fuel task st h hro hok
+  rw [hex] at this
+  obtain ⟨h', _, _⟩ := this.alive hwalk
+  exact ⟨h'.alive.2, h'⟩
+
+/-- **Deferred destruction** (`destroy_notifies` for a destruction requested from inside a handler): an emission, with
+    no walker running around it, that ends with the owner destroyed has first run its occurrence to completion — the
+    walker returned in a state `st2` in which the owner lives, the invariant holds (so `fire_order` applies to that
+    very occurrence), the sweep is done and every binding of the chain is live — and only then notified the remaining
+    bindings that asked, in reverse chain order, each exactly once, and freed the chain. -/
+def DeferredDestroyStmt (cfg : Cfg) : Prop :=
+  ∀ own beh, own.holdsRef = true → ∀ fuel wf ev st st' r, Tickit.Bindings.Inv st → st.isIter = false →
+    exec cfg own beh fuel (.emitter wf ev) st = .ok (st', r) → st'.dead = true →
+    ∃ st2 fuel', exec cfg own beh fuel' (.runEvent wf ev) { st with refs := st.refs + 1 } = .ok (st2, r) ∧
+      Tickit.Bindings.Inv st2 ∧ st2.isIter = false ∧ (∀ b ∈ st2.list, b.id ≠ TOMBSTONE) ∧ st'.list = [] ∧
+      ∃ seg, st'.log = seg ++ st2.log ∧
+        enters seg = (st2.list.reverse.filter asked).map (fun b => (b.key, EV_UNBIND + EV_DESTROY))
+
+theorem destroy_from_handler_notifies : DeferredDestroyStmt Cfg.repaired := by
+  intro own beh hh fuel wf ev st st' r h hni hex hd
+  exact emitter_destroys own beh (Or.inl hh) hh h hni hex hd
+
+/-- Without the emitters' reference the hypothesis on the behaviours is needed: on a pen that holds none
+    (the code before fix 4d40c98) a handler dropping the last reference frees the chain under the walker. -/
+theorem destroy_in_handler_counterexample :
+    ¬ (∀ (own : Owner) (beh : Behaviour) (fuel : Nat) (ops : List Op), ValidOps ops → ∀ w,
+        execOps Cfg.repaired own beh fuel ops St.init ≠ .ub w) := by
+  intro h
+  have hub : isUb (execOps Cfg.repaired Owner.pen behDropRef 30 [.bind 1 false plain 0, .emit 1] St.init) = true := by decide
+  cases hc : execOps Cfg.repaired Owner.pen behDropRef 30 [.bind 1 false plain 0, .emit 1] St.init with
+  | ub w => exact h Owner.pen behDropRef 30 _ (by decide) w hc
+  | ok st => rw [hc] at hub; cases hub
+  | outOfFuel => rw [hc] at hub; cases hub
+
+/-- …and with it the same history completes: handler 0 drops the reference and emits again (the nested occurrence
+    delivers to both bindings), the outer walk goes on to binding 1, and only after the outermost emission has ended are
+    the two askers notified, newest first; the owner is then gone. -/
+example :
+    (match execOps Cfg.repaired penHoldingRef behDropRef 40
+        [.bind 1 false ⟨false, true, false⟩ 0, .bind 1 false wantsUnbind 1, .emit 1] St.init with
+     | .ok st => some (st.dead, firesOf 1 st.log, firesOf 2 st.log)
+     | _ => none) = some (true, [0, 1], [0, 1]) := by decide
+
+example :
+    (match execOps Cfg.repaired penHoldingRef behDropRef 40
+        [.bind 1 false ⟨false, true, false⟩ 0, .bind 1 false wantsUnbind 1, .emit 1] St.init with
+     | .ok st => some (enters (st.log.take 4), (st.log.drop 4).head?)
+     | _ => none) = some ([(1, 6), (0, 6)], some (Ev.occEnd 1)) := by decide
+
 /-! ### no binding is lost -/
 
 /-- After any history, the bindings the trace says are live — bound, not unbound since, not a delivered one-shot —
     are exactly the live nodes of the chain: no bind is lost, no unbound binding lingers. -/
 def LiveInChainStmt (cfg : Cfg) : Prop :=
-  ∀ own beh, NoDestroy beh → ∀ fuel ops st, ValidOps ops → Runs cfg own beh fuel ops st → Op.destroy ∉ ops →
+  ∀ own beh, Safe own beh → ∀ fuel ops st, ValidOps ops → Runs cfg own beh fuel ops st → Op.destroy ∉ ops → st.dead = false →
     ∀ k, liveAt st.log k ↔ liveKey st.list k
 
 theorem live_bindings_are_in_chain : LiveInChainStmt Cfg.repaired := by
-  intro own beh hb fuel ops st hops hr hnd k
+  intro own beh hb fuel ops st hops hr hnd hal k
   have := execOps_good own beh hb fuel ops St.init hops Top.init
   rw [hr] at this
-  exact ((this.2 hnd).1.1.liveIff k).symm
+  exact ((this.2 hnd hal).1.1.liveIff k).symm
 
 /-! ### the unchanged code violates the clauses: counterexample theorems
 
@@ -324,9 +395,9 @@ them through the harness (see `known/C16.json`). -/
     occurrence and again when the outer walker reaches its tombstone (which kept `evindex`). -/
 theorem oneshot_counterexample : ¬ OneshotStmt Cfg.original := by
   intro h
-  obtain ⟨st, hr, hlog, _⟩ := runs_of_isOk (cfg := Cfg.original) (own := Owner.pen) (beh := behReemit) (fuel := 30)
+  obtain ⟨st, hr, hlog, _, _⟩ := runs_of_isOk (cfg := Cfg.original) (own := Owner.pen) (beh := behReemit) (fuel := 30)
     (ops := [.bind 1 false plain 0, .bind 1 false oneshot 1, .emit 1]) (by decide)
-  have := h Owner.pen behReemit noDestroy_behReemit 30 _ st (by decide) hr 1 oneshot
+  have := h Owner.pen behReemit (Or.inr noDestroy_behReemit) 30 _ st (by decide) hr 1 oneshot
     (by rw [hlog]; exact ⟨2, 1, false, by decide⟩) rfl
   rw [hlog] at this
   revert this; decide
@@ -335,9 +406,9 @@ theorem oneshot_counterexample : ¬ OneshotStmt Cfg.original := by
     every key event. -/
 theorem oneshot_whilefalse_counterexample : ¬ OneshotStmt Cfg.original := by
   intro h
-  obtain ⟨st, hr, hlog, _⟩ := runs_of_isOk (cfg := Cfg.original) (own := Owner.term) (beh := behNone) (fuel := 30)
+  obtain ⟨st, hr, hlog, _, _⟩ := runs_of_isOk (cfg := Cfg.original) (own := Owner.term) (beh := behNone) (fuel := 30)
     (ops := [.bind 2 false oneshot 0, .emit 2, .emit 2]) (by decide)
-  have := h Owner.term behNone noDestroy_behNone 30 _ st (by decide) hr 0 oneshot
+  have := h Owner.term behNone (Or.inr noDestroy_behNone) 30 _ st (by decide) hr 0 oneshot
     (by rw [hlog]; exact ⟨1, 2, false, by decide⟩) rfl
   rw [hlog] at this
   revert this; decide
@@ -349,7 +420,7 @@ theorem no_ub_counterexample : ¬ NoUbStmt Cfg.original := by
   have hub : isUb (execOps Cfg.original Owner.pen behSelfTwice 30 [.bind 1 false wantsUnbind 0, .unbind 0] St.init) = true := by
     decide
   cases hc : execOps Cfg.original Owner.pen behSelfTwice 30 [.bind 1 false wantsUnbind 0, .unbind 0] St.init with
-  | ub w => exact h Owner.pen behSelfTwice noDestroy_behSelfTwice 30 _ (by decide) w hc
+  | ub w => exact h Owner.pen behSelfTwice (Or.inr noDestroy_behSelfTwice) 30 _ (by decide) w hc
   | ok st => rw [hc] at hub; cases hub
   | outOfFuel => rw [hc] at hub; cases hub
 
@@ -357,9 +428,9 @@ theorem no_ub_counterexample : ¬ NoUbStmt Cfg.original := by
     its own unbind notification: found (and notified) twice. -/
 theorem unbind_notify_counterexample : ¬ UnbindNotifyAtMostStmt Cfg.original := by
   intro h
-  obtain ⟨st, hr, hlog, _⟩ := runs_of_isOk (cfg := Cfg.original) (own := Owner.pen) (beh := behSelfTwice) (fuel := 30)
+  obtain ⟨st, hr, hlog, _, _⟩ := runs_of_isOk (cfg := Cfg.original) (own := Owner.pen) (beh := behSelfTwice) (fuel := 30)
     (ops := [.bind 1 false wantsUnbind 0, .emit 1]) (by decide)
-  have := (h Owner.pen behSelfTwice noDestroy_behSelfTwice 30 _ st (by decide) hr 0).2.1
+  have := (h Owner.pen behSelfTwice (Or.inr noDestroy_behSelfTwice) 30 _ st (by decide) hr 0).2.1
   rw [hlog] at this
   revert this; decide
 
@@ -367,9 +438,9 @@ theorem unbind_notify_counterexample : ¬ UnbindNotifyAtMostStmt Cfg.original :=
     unbound is delivered it. -/
 theorem no_fire_after_unbind_counterexample : ¬ NoFireAfterUnbindStmt Cfg.original := by
   intro h
-  obtain ⟨st, hr, hlog, _⟩ := runs_of_isOk (cfg := Cfg.original) (own := Owner.pen) (beh := behReemit) (fuel := 30)
+  obtain ⟨st, hr, hlog, _, _⟩ := runs_of_isOk (cfg := Cfg.original) (own := Owner.pen) (beh := behReemit) (fuel := 30)
     (ops := [.bind 1 false wantsUnbind 0, .unbind 0]) (by decide)
-  have := h Owner.pen behReemit noDestroy_behReemit 30 _ st (by decide) hr
+  have := h Owner.pen behReemit (Or.inr noDestroy_behReemit) 30 _ st (by decide) hr
     [.leave 0 0 0, .actEnd, .occEnd 1, .leave 0 1 0, .enter 0 0 1 1 1, .fire 0 1, .occBegin 1 1 false, .actBegin 0, .enter 0 0 0 2 0]
     [.bound 0 1 1 false wantsUnbind] 0 (by rw [hlog]; decide)
   revert this; decide
@@ -378,12 +449,12 @@ theorem no_fire_after_unbind_counterexample : ¬ NoFireAfterUnbindStmt Cfg.origi
     stale `*bindp = bind->next` unlinks the new binding again. -/
 theorem lost_binding_counterexample : ¬ LiveInChainStmt Cfg.original := by
   intro h
-  obtain ⟨st, hr, hlog, hchain⟩ := runs_of_isOk (cfg := Cfg.original) (own := Owner.pen) (beh := behBindFirst) (fuel := 30)
+  obtain ⟨st, hr, hlog, hchain, hdead⟩ := runs_of_isOk (cfg := Cfg.original) (own := Owner.pen) (beh := behBindFirst) (fuel := 30)
     (ops := [.bind 1 false wantsUnbind 0, .unbind 0]) (by decide)
   have hlive : liveAt st.log 1 := by
     rw [hlog]
     exact ⟨plain, ⟨2, 1, true, by decide⟩, by unfold reqIn; decide, fun ho => by cases ho⟩
-  obtain ⟨b, hbm, _, _⟩ := (h Owner.pen behBindFirst noDestroy_behBindFirst 30 _ st (by decide) hr (by decide) 1).1 hlive
+  obtain ⟨b, hbm, _, _⟩ := (h Owner.pen behBindFirst (Or.inr noDestroy_behBindFirst) 30 _ st (by decide) hr (by decide) (by rw [hdead]; decide) 1).1 hlive
   have : b.key ∈ keys st.list := mem_keys.2 ⟨b, hbm, rfl⟩
   have hnil : chainOf (execOps Cfg.original Owner.pen behBindFirst 30 [.bind 1 false wantsUnbind 0, .unbind 0] St.init) = [] := by
     decide
@@ -396,14 +467,14 @@ theorem lost_binding_counterexample : ¬ LiveInChainStmt Cfg.original := by
     binding 1 is bound and delivered exactly once, although event 1 occurred twice. -/
 example : ∃ st, Runs Cfg.repaired Owner.pen behReemit 30 [.bind 1 false plain 0, .bind 1 false oneshot 1, .emit 1] st ∧
     boundIn st.log 1 oneshot ∧ st.log.countP (isEnterFire 1) = 1 ∧ st.log.countP (isEnterFire 0) = 2 := by
-  obtain ⟨st, hr, hlog, _⟩ := runs_of_isOk (cfg := Cfg.repaired) (own := Owner.pen) (beh := behReemit) (fuel := 30)
+  obtain ⟨st, hr, hlog, _, _⟩ := runs_of_isOk (cfg := Cfg.repaired) (own := Owner.pen) (beh := behReemit) (fuel := 30)
     (ops := [.bind 1 false plain 0, .bind 1 false oneshot 1, .emit 1]) (by decide)
   refine ⟨st, hr, by rw [hlog]; exact ⟨2, 1, false, by decide⟩, by rw [hlog]; decide, by rw [hlog]; decide⟩
 
 /-- A one-shot key handler on a terminal: two key events, one delivery. -/
 example : ∃ st, Runs Cfg.repaired Owner.term behNone 30 [.bind 2 false oneshot 0, .emit 2, .emit 2] st ∧
     st.log.countP (isEnterFire 0) = 1 := by
-  obtain ⟨st, hr, hlog, _⟩ := runs_of_isOk (cfg := Cfg.repaired) (own := Owner.term) (beh := behNone) (fuel := 30)
+  obtain ⟨st, hr, hlog, _, _⟩ := runs_of_isOk (cfg := Cfg.repaired) (own := Owner.term) (beh := behNone) (fuel := 30)
     (ops := [.bind 2 false oneshot 0, .emit 2, .emit 2]) (by decide)
   exact ⟨st, hr, by rw [hlog]; decide⟩
 
@@ -411,13 +482,13 @@ example : ∃ st, Runs Cfg.repaired Owner.term behNone 30 [.bind 2 false oneshot
     code: no undefined behaviour, one request, one notification, both from the top level and under a walker. -/
 example : ∃ st, Runs Cfg.repaired Owner.pen behSelfTwice 30 [.bind 1 false wantsUnbind 0, .unbind 0] st ∧
     st.log.countP (isReq 0) = 1 ∧ st.log.countP (isNotif 0) = 1 := by
-  obtain ⟨st, hr, hlog, _⟩ := runs_of_isOk (cfg := Cfg.repaired) (own := Owner.pen) (beh := behSelfTwice) (fuel := 30)
+  obtain ⟨st, hr, hlog, _, _⟩ := runs_of_isOk (cfg := Cfg.repaired) (own := Owner.pen) (beh := behSelfTwice) (fuel := 30)
     (ops := [.bind 1 false wantsUnbind 0, .unbind 0]) (by decide)
   exact ⟨st, hr, by rw [hlog]; decide, by rw [hlog]; decide⟩
 
 example : ∃ st, Runs Cfg.repaired Owner.pen behSelfTwice 30 [.bind 1 false wantsUnbind 0, .emit 1] st ∧
     st.log.countP (isReq 0) = 1 ∧ st.log.countP (isNotif 0) = 1 ∧ st.log.countP (isEnterFire 0) = 1 := by
-  obtain ⟨st, hr, hlog, _⟩ := runs_of_isOk (cfg := Cfg.repaired) (own := Owner.pen) (beh := behSelfTwice) (fuel := 30)
+  obtain ⟨st, hr, hlog, _, _⟩ := runs_of_isOk (cfg := Cfg.repaired) (own := Owner.pen) (beh := behSelfTwice) (fuel := 30)
     (ops := [.bind 1 false wantsUnbind 0, .emit 1]) (by decide)
   exact ⟨st, hr, by rw [hlog]; decide, by rw [hlog]; decide, by rw [hlog]; decide⟩
 
@@ -425,7 +496,7 @@ example : ∃ st, Runs Cfg.repaired Owner.pen behSelfTwice 30 [.bind 1 false wan
     request followed by an occurrence of the event, and no delivery to the unbound binding. -/
 example : ∃ st, Runs Cfg.repaired Owner.pen behReemit 30 [.bind 1 false wantsUnbind 0, .unbind 0] st ∧
     Ev.unbindReq 0 ∈ st.log ∧ Ev.occBegin 1 1 false ∈ st.log ∧ st.log.countP (isEnterFire 0) = 0 := by
-  obtain ⟨st, hr, hlog, _⟩ := runs_of_isOk (cfg := Cfg.repaired) (own := Owner.pen) (beh := behReemit) (fuel := 30)
+  obtain ⟨st, hr, hlog, _, _⟩ := runs_of_isOk (cfg := Cfg.repaired) (own := Owner.pen) (beh := behReemit) (fuel := 30)
     (ops := [.bind 1 false wantsUnbind 0, .unbind 0]) (by decide)
   exact ⟨st, hr, by rw [hlog]; decide, by rw [hlog]; decide, by rw [hlog]; decide⟩
 
